@@ -393,20 +393,30 @@ PROPS = {
                   "nested rendering); bounded run-time stand-in (nested vs top-level rendering of generated Markdown) for the rest",
     ),
     "C09": dict(
-        level="exploration",
-        contracts=[],
+        level="other",
+        contracts=["contracts.links"],
         harness=True,
         explanation=(
-            "BOUNDED ONLY so far (ResolveAnchorIds.apply and the render_link dispatch are not yet under contract): documents "
+            "PROVED (pyvc, every token and configuration, relative to the docutils node model and G'): render_link sends a "
+            "destination that starts with '#' - in MyST mode, without an `external` class - to render_link_anchor and "
+            "nothing else there (the other renderers are reached only otherwise; `project:#x` is forwarded by "
+            "render_link_project itself); render_link_anchor attaches exactly ONE reference node, marked id_link, at the "
+            "link's own line below the current node (no link is dropped or duplicated at this stage), renders the link text "
+            "inside it unless the link is an autolink, and puts the current node back.  NOT under contract: "
+            "ResolveAnchorIds.apply (the resolution itself: docutils name/id registries, node attribute dictionaries, "
+            "isinstance over node class unions - outside the engine's subset) and the target-registering renderers.  "
+            "BOUNDED: documents "
             "over 8 kinds of target providers ('(name)=' before a heading / paragraph / captioned figure, attribute ids - also "
             "written with upper case -, a directive :name:, a heading slug) with empty-text and explicit-text links, "
             "explicit-over-slug priority in both orders, and missing targets: one reference node per link, refid of the node "
             "that carries the target, implicit text = target title or '#name', exactly one 'target not found' warning per "
             "unresolvable link at the link's own line."
         ),
-        assumptions=["docutils name/id registries (note_explicit_target, ids)"],
-        trusted_base=[],
-        technique="bounded run-time stand-in (generated target/link documents) - no contract discharged yet",
+        assumptions=["docutils name/id registries (note_explicit_target, ids)",
+                     "the other link renderers are seen through G' only (assumed)"],
+        trusted_base=["docutils node model", "markdown-it-py token attributes (attrGet)", "re (REGEX_SCHEME as an opaque matcher)"],
+        technique="contract-based deductive verification of the link dispatch (render_link) and render_link_anchor; bounded run-time "
+                  "stand-in (generated target/link documents) for the resolution transform",
     ),
     "C11": dict(
         level="exploration",
